@@ -30,6 +30,7 @@ type UnitResult struct {
 	WallMs      int64         `json:"wall_ms"`
 	ScriptLines int           `json:"script_lines"`
 	LocalTypes  map[string]string `json:"-"`
+	AllLocals   map[string]string `json:"-"`
 	unit        *Unit
 }
 
@@ -69,6 +70,7 @@ func (eng *Engine) VerifyFunction(fn *ssa.Function, key string, sp *FuncSpec) *U
 		return res
 	}
 	res.LocalTypes = u.computeAliases(key)
+	res.AllLocals = u.allLocals
 	func() {
 		defer func() {
 			if r := recover(); r != nil {
